@@ -177,6 +177,9 @@ struct Run{
     c.ctr->add("rhs_evaluations",c.rhs_evals); c.ctr->add("stepper_applies",c.napply);
     c.ctr->add("fault_step_rejection_fired",c.rejections_fired); c.ctr->add("fault_apply_failure_fired",c.failures_fired);
     if(c.distinct_inputs>=2) c.ctr->add("probe_rhs_on_two_buffers");
+    if(numerics){ c.ctr->add("cover_stepper_"+sc.name+(sc.adaptive?"_adaptive":"_fixed")); char mk[32]; snprintf(mk,sizeof mk,"cover_switch_mask_%d%d%d%d%d",c.sw.coh,c.sw.noncoh,c.sw.other,c.sw.gs,c.sw.os); c.ctr->add(mk);
+      c.ctr->add("cover_nsun_"+std::to_string(nsun)); c.ctr->add("cover_nx_"+std::to_string(nx)); c.ctr->add("cover_nrhos_"+std::to_string(nrhos)); c.ctr->add("cover_nscalars_"+std::to_string(nsc)); }
+    else c.ctr->add("cover_evolve_without_numerics");
     c.tr->ev("op#%d evolve dt=%.17g stepper=%s adaptive=%d sw=%d%d%d%d%d applies=%ld evals=%ld",c.opi,dt,sc.name.c_str(),sc.adaptive,c.sw.coh,c.sw.noncoh,c.sw.other,c.sw.gs,c.sw.os,c.napply,c.rhs_evals);
     shp("evolve:"+sc.name+(sc.adaptive?":a":":f")+(sc.is_sim()?":t"+std::to_string(sc.tableau)+"b"+std::to_string(sc.bufmode)+(sc.dydt_in?"d":""):"")); shp((long)(c.sw.coh|c.sw.noncoh<<1|c.sw.other<<2|c.sw.gs<<3|c.sw.os<<4)); shp((long)c.distinct_inputs);
     if(!c.out->ok) return;
